@@ -170,6 +170,13 @@ pub fn parse_file(path: &Path) -> syn::File {
     syn::parse_file(&src).unwrap_or_else(|e| panic!("parse {}: {e}", path.display()))
 }
 
+/// `K::try_from_usize` (also `<K as Key>::try_from_usize`): the key check on the interner's *own* key type.
+/// The same call on any other type (`Spur::try_from_usize`, ..) checks something else.
+pub fn is_own_key_check(f: &str) -> bool {
+    let f: String = f.chars().filter(|c| !c.is_whitespace()).collect();
+    f == "K::try_from_usize" || f == "<KasKey>::try_from_usize" || f == "<Kascrate::Key>::try_from_usize"
+}
+
 /// Normalised token string of anything printable.
 pub fn toks<T: quote::ToTokens>(t: &T) -> String {
     let s = t.to_token_stream().to_string();
